@@ -131,10 +131,11 @@ def load_known():
 
 def classify(violation, known):
     """Returns the known-finding entry that lists this violation, or None."""
+    import fnmatch
     for k in known:
         if k.get("property") != violation["property"]:
             continue
-        if k.get("class") != violation["class"]:
+        if not fnmatch.fnmatchcase(violation["class"], k.get("class", "")):
             continue
         pred = witness.WITNESS.get(k.get("witness", ""))
         if pred is None:
@@ -182,7 +183,7 @@ def write_evidence(prop, ev):
 
 
 def finish(prop, tier, seed, spec, results, outdir, binary, t0, replay_env=None, replay_args=(), extra_cov=None,
-           extra_violations=()):
+           extra_violations=(), extra_fp_dirs=None):
     """Merge shard results, confirm and classify violations, write evidence, print lines."""
     violations = []
     seen = set()
@@ -196,23 +197,29 @@ def finish(prop, tier, seed, spec, results, outdir, binary, t0, replay_env=None,
     for v in extra_violations:
         violations.append(v)
     known = load_known()
+    known_seen = set()
     n_viol = 0
     lines = []
     for idx, v in enumerate(violations):
         if v.get("no_replay"):
             path = v["replay_path"]
         else:
-            path = confirm_replay(binary, v, idx, env=replay_env, extra_args=replay_args)
+            b = binary.get(v.get("engine")) if isinstance(binary, dict) else binary
+            path = confirm_replay(b, v, idx, env=replay_env, extra_args=replay_args)
         k = classify(v, known)
         if k is not None:
-            lines.append("KNOWN-FINDING: property=%s %s [%s; witness replay=%s]" % (v["property"], k["text"], k["id"], path))
+            if k["id"] not in known_seen:
+                known_seen.add(k["id"])
+                lines.append("KNOWN-FINDING: property=%s %s [%s; witness replay=%s]" % (v["property"], k["text"], k["id"], path))
         else:
             n_viol += 1
             lines.append("VIOLATION property=%s replay=%s" % (v["property"], path))
             lines.append("  class=%s: %s" % (v["class"], v["message"][:600]))
     evaluations = sum(r["evaluations"] for r in results)
     wall = time.time() - t0
-    distinct = merge_fingerprints(outdir, len(results))
+    distinct = merge_fingerprints(outdir, NSHARDS)
+    for d in (extra_fp_dirs or []):
+        distinct += merge_fingerprints(d, NSHARDS)
     probes = merge_counts(results, "probes")
     faults = merge_counts(results, "faults_fired")
     counters = merge_counts(results, "counters")
